@@ -1036,27 +1036,43 @@ Qed.
 
 (** * The whole command processor *)
 
-Inductive cpstep : cp -> cp -> Prop :=
+(** internal steps: a dispatcher acts, or a launch is handed to an idle dispatcher *)
+Inductive istep : cp -> cp -> Prop :=
 | CS_disp : forall s sh' ds',
     gstep (cfg s) (sh s, disps s) (sh', ds') ->
-    cpstep s (s <| sh := sh' |> <| disps := ds' |>)
+    istep s (s <| sh := sh' |> <| disps := ds' |>)
 | CS_start : forall s l rest ds1 d ds2,
     crashed (sh s) = false -> drv_in s = l :: rest -> disps s = ds1 ++ d :: ds2 ->
     dispatching d = None -> Forall (fun x => dispatching x <> None) ds1 ->
     (is_partition (c_alg (cfg s)) = true -> 0 < length (pool (sh s))) ->
-    cpstep s (s <| disps := ds1 ++ start_dispatching (cfg s) (length (pool (sh s))) d l :: ds2 |>
-                <| drv_in := rest |> <| g_started := g_started s ++ [l] |>)
+    istep s (s <| disps := ds1 ++ start_dispatching (cfg s) (length (pool (sh s))) d l :: ds2 |>
+               <| drv_in := rest |> <| g_started := g_started s ++ [l] |>).
+
+(** steps of the environment on the two ports *)
+Inductive estep : cp -> cp -> Prop :=
 | CS_launch : forall s l,
-    length (drv_in s) < c_cap (cfg s) -> cpstep s (s <| drv_in := drv_in s ++ [l] |>)
+    length (drv_in s) < c_cap (cfg s) -> estep s (s <| drv_in := drv_in s ++ [l] |>)
 | CS_complete : forall s ids,
     length (cu_in (sh s)) < c_cap (cfg s) ->
-    cpstep s (s <| sh := sh s <| cu_in := cu_in (sh s) ++ [ids] |> |>)
+    estep s (s <| sh := sh s <| cu_in := cu_in (sh s) ++ [ids] |> |>)
 | CS_retr_cu : forall s m r,
     cu_out (sh s) = m :: r ->
-    cpstep s (s <| sh := sh s <| cu_out := r |> |> <| g_mretr := g_mretr s ++ [m] |>)
+    estep s (s <| sh := sh s <| cu_out := r |> |> <| g_mretr := g_mretr s ++ [m] |>)
 | CS_retr_drv : forall s m r,
     drv_out (sh s) = m :: r ->
-    cpstep s (s <| sh := sh s <| drv_out := r |> |> <| g_rretr := g_rretr s ++ [m] |>).
+    estep s (s <| sh := sh s <| drv_out := r |> |> <| g_rretr := g_rretr s ++ [m] |>).
+
+Definition cpstep (s s' : cp) : Prop := istep s s' \/ estep s s'.
+
+Inductive isteps : cp -> cp -> Prop :=
+| isteps_refl : forall x, isteps x x
+| isteps_step : forall x y z, istep x y -> isteps y z -> isteps x z.
+
+Lemma isteps_trans : forall x y z, isteps x y -> isteps y z -> isteps x z.
+Proof. induction 1; intros; auto. econstructor; eauto. Qed.
+
+Lemma isteps_one : forall x y, istep x y -> isteps x y.
+Proof. intros. econstructor; eauto. constructor. Qed.
 
 Inductive cpsteps : cp -> cp -> Prop :=
 | cpsteps_refl : forall x, cpsteps x x
@@ -1068,6 +1084,9 @@ Proof. induction 1; intros; auto. econstructor; eauto. Qed.
 Lemma cpsteps_one : forall x y, cpstep x y -> cpsteps x y.
 Proof. intros. econstructor; eauto. constructor. Qed.
 
+Lemma isteps_cpsteps : forall x y, isteps x y -> cpsteps x y.
+Proof. induction 1; [constructor|]. econstructor; [left; eauto|auto]. Qed.
+
 Lemma set_sh_disps_same : forall s : cp, s <| sh := sh s |> <| disps := disps s |> = s.
 Proof. destruct s; reflexivity. Qed.
 
@@ -1076,12 +1095,12 @@ Lemma set_sh_disps_twice : forall (s : cp) a b a' b',
 Proof. destruct s; reflexivity. Qed.
 
 Lemma gsteps_cpsteps : forall c x y, gsteps c x y ->
-  forall s, c = cfg s -> x = (sh s, disps s) -> cpsteps s (s <| sh := fst y |> <| disps := snd y |>).
+  forall s, c = cfg s -> x = (sh s, disps s) -> isteps s (s <| sh := fst y |> <| disps := snd y |>).
 Proof.
   induction 1; intros s Hc Hx.
   - subst x. simpl. rewrite set_sh_disps_same. constructor.
   - subst x c. destruct y as [sh1 ds1].
-    eapply cpsteps_step; [apply CS_disp; exact H|].
+    eapply isteps_step; [apply CS_disp; exact H|].
     assert (E1 : cfg s = cfg (s <| sh := sh1 |> <| disps := ds1 |>)) by reflexivity.
     assert (E2 : (sh1, ds1) = (sh (s <| sh := sh1 |> <| disps := ds1 |>), disps (s <| sh := sh1 |> <| disps := ds1 |>))) by reflexivity.
     specialize (IHgsteps (s <| sh := sh1 |> <| disps := ds1 |>) E1 E2).
@@ -1129,7 +1148,7 @@ Qed.
 
 Lemma handle_launch_ref : forall s s' p,
   handle_launch s = (s', p) -> crashed (sh s) = false -> CInt s ->
-  (crashed (sh s') = false /\ (s' = s \/ cpstep s s') /\ CInt s' /\ cfg s' = cfg s /\
+  (crashed (sh s') = false /\ (s' = s \/ istep s s') /\ CInt s' /\ cfg s' = cfg s /\
    length (pool (sh s')) = length (pool (sh s))) \/
   (crashed (sh s') = true /\ ccrash_at s).
 Proof.
@@ -1160,7 +1179,7 @@ Proof. intros. unfold CInt. simpl. rewrite H0. exact H. Qed.
 
 Lemma cp_tick_ref : forall s s' p,
   cp_tick s = (s', p) -> crashed (sh s) = false -> CInt s ->
-  exists x, cpsteps s x /\
+  exists x, isteps s x /\
     ((crashed (sh s') = false /\ x = s' /\ CInt s' /\ cfg s' = cfg s /\
       length (pool (sh s')) = length (pool (sh s))) \/
      (crashed (sh s') = true /\ ccrash_at x)).
@@ -1183,11 +1202,11 @@ Proof.
   2: { (* the second hand-over does nothing after a panic *)
        unfold handle_launch in E3. rewrite Hc2 in E3. inversion E3; subst.
        exists s1. split; [exact Hcs|]. right. auto. }
-  assert (Hcs2 : cpsteps s s2).
-  { destruct Hst2 as [->|Hst2]; [exact Hcs|]. eapply cpsteps_trans; [exact Hcs|apply cpsteps_one; exact Hst2]. }
+  assert (Hcs2 : isteps s s2).
+  { destruct Hst2 as [->|Hst2]; [exact Hcs|]. eapply isteps_trans; [exact Hcs|apply isteps_one; exact Hst2]. }
   destruct (handle_launch_ref _ _ _ E3 Hc2 HI2) as [[Hc3 [Hst3 [HI3 [Hcf3 Hl3]]]]|[Hc3 Hcr3]].
   - exists s3. split.
-    + destruct Hst3 as [->|Hst3]; [exact Hcs2|]. eapply cpsteps_trans; [exact Hcs2|apply cpsteps_one; exact Hst3].
+    + destruct Hst3 as [->|Hst3]; [exact Hcs2|]. eapply isteps_trans; [exact Hcs2|apply isteps_one; exact Hst3].
     + assert (Ec1 : cfg s1 = cfg s) by reflexivity.
       assert (El1 : length (pool (sh s1)) = length (pool sh1)) by reflexivity.
       left. split; auto. split; auto. split; auto. split; congruence.
@@ -1203,20 +1222,20 @@ Lemma step_ref : forall s e,
 Proof.
   intros s e Hc HI. unfold step. rewrite Hc. destruct e.
   - destruct (length (drv_in s) <? c_cap (cfg s)) eqn:E; simpl.
-    + apply Nat.ltb_lt in E. eexists. split; [apply cpsteps_one; apply CS_launch; exact E|].
+    + apply Nat.ltb_lt in E. eexists. split; [apply cpsteps_one; right; apply CS_launch; exact E|].
       left. repeat split; auto.
     + exists s. split; [constructor|]. left. repeat split; auto.
   - destruct (length (cu_in (sh s)) <? c_cap (cfg s)) eqn:E; simpl.
-    + apply Nat.ltb_lt in E. eexists. split; [apply cpsteps_one; apply CS_complete; exact E|].
+    + apply Nat.ltb_lt in E. eexists. split; [apply cpsteps_one; right; apply CS_complete; exact E|].
       left. repeat split; auto.
     + exists s. split; [constructor|]. left. repeat split; auto.
   - destruct (cp_tick s) as [s' p] eqn:E. simpl.
-    destruct (cp_tick_ref _ _ _ E Hc HI) as [x [Hx Hr]]. exists x. split; auto.
+    destruct (cp_tick_ref _ _ _ E Hc HI) as [x [Hx Hr]]. exists x. split; [apply isteps_cpsteps; auto|].
     destruct Hr as [[? [? [? [? ?]]]]|[? ?]]; [left|right]; subst; auto.
   - destruct (cu_out (sh s)) as [|m r] eqn:E; simpl.
     + exists s. split; [constructor|]. left. repeat split; auto.
-    + eexists. split; [apply cpsteps_one; eapply CS_retr_cu; exact E|]. left. repeat split; auto.
+    + eexists. split; [apply cpsteps_one; right; eapply CS_retr_cu; exact E|]. left. repeat split; auto.
   - destruct (drv_out (sh s)) as [|m r] eqn:E; simpl.
     + exists s. split; [constructor|]. left. repeat split; auto.
-    + eexists. split; [apply cpsteps_one; eapply CS_retr_drv; exact E|]. left. repeat split; auto.
+    + eexists. split; [apply cpsteps_one; right; eapply CS_retr_drv; exact E|]. left. repeat split; auto.
 Qed.
